@@ -259,7 +259,8 @@ def run_state(st, mode, c):
     elif kind == "ped":
         N = len(ps)
         maxp = max(ps)
-        g = np.full((C, S, N, maxp), -1, dtype=np.int16)
+        # unused cells of lower-ploidy individuals: any negative filler (the sampler keeps the caller's; -1 and -2 both occur)
+        g = np.full((C, S, N, maxp), -1 if (C + S + b + N) % 2 == 0 else -2, dtype=np.int16)
         for ci in range(C):
             for si in range(S):
                 for i in range(N):
